@@ -62,6 +62,8 @@ d4a3bb1 C16
 9d63e39 C14
 47c1c52 C14 C15
 72c542d C08 C02
+9028362 C17
+3e08cf1 C15
 LIST
 rm -rf "$VERIF/evidence"; cp -r /tmp/evidence.bak.$$ "$VERIF/evidence"; rm -rf /tmp/evidence.bak.$$
 echo "revert sweep done: $OUT"
